@@ -478,6 +478,10 @@ func verifyCRLSignature(result *crlreader.CRLReadResult, chains *core.Certificat
 	var signatureCert *core.CertificateChainEntry
 	crlVerified := false
 	for _, certCandidate := range certCandidates {
+		//rfc5280 section 6.3.3 (f): if a key usage extension is present the cRLSign bit must be set
+		if certCandidate.Certificate.KeyUsage != 0 && certCandidate.Certificate.KeyUsage&x509.KeyUsageCRLSign == 0 {
+			continue
+		}
 		strategies := result.HashAndVerifyStrategy
 		err := strategies.VerifyStrategy.VerifySignature(strategies.HashStrategy, certCandidate.Certificate.PublicKey, result.CalculatedSignature, result.Signature.Bytes)
 		if err == nil {
